@@ -16,6 +16,7 @@ type worldOpts struct {
 	Formats      []string // restrict generated formats (nil = all)
 	Encodings    bool     // allow BOM / declared-encoding variants
 	NoJS         bool     // avoid worlds that use javascript
+	Pathological bool     // see world.GenOpts
 }
 
 var bom = []byte{0xEF, 0xBB, 0xBF}
@@ -27,7 +28,7 @@ func pickWorld(c *Ctx, o worldOpts) *world.World {
 	var w *world.World
 	useGen := o.GenWeight > 0 && world.HaveGenerators() && (o.CorpusWeight == 0 || c.T.Weighted("world.src", o.CorpusWeight, o.GenWeight) == 1)
 	if useGen {
-		w = world.Generate(c.T, world.GenOpts{Formats: o.Formats, NoJS: o.NoJS, Encodings: o.Encodings})
+		w = genWorld(c, world.GenOpts{Formats: o.Formats, NoJS: o.NoJS, Encodings: o.Encodings, Pathological: o.Pathological})
 		c.Count("world.generated", 1)
 	} else {
 		corpus, err := world.Corpus()
@@ -115,4 +116,17 @@ func baseEnv(c *Ctx) run.Env {
 	e.UUIDSeed = 1 + c.T.U("env.uuid", 1<<32)
 	e.EDIBuf = []int{0, 1, 16, 128, 4096}[c.T.Weighted("env.edibuf", 6, 1, 2, 1, 1)]
 	return e
+}
+
+// genWorld generates a world and counts which generator features it has (world tags) as reach probes.
+func genWorld(c *Ctx, o world.GenOpts) *world.World {
+	w := world.Generate(c.T, o)
+	for k := range w.Tags {
+		switch k {
+		case "family", "encoding", "bom":
+		default:
+			c.Hit("world." + k)
+		}
+	}
+	return w
 }
